@@ -62,6 +62,8 @@ func c18(w *core.World, r *core.Report) {
 
 	r.Rule("R18.9", "the slot-tag table behind the control keys is read only after it was built", 1)
 	ruleSlotTagTablePublished(w, r)
+	r.Rule("R18.10", "the relaxed slot mode (forced slot 0, cross-slot accepted) is selected by 'the target is not a cluster' and nothing narrower", 1)
+	ruleSlotModeByTargetKind(w, r)
 	r.Rule("R18.4", "cluster client re-validation before MULTI is sent", 4)
 	ruleTxnBatcherValidation(w, r)
 
@@ -723,4 +725,67 @@ func ruleSlotTagTablePublished(w *core.World, r *core.Report) {
 	if n == 0 {
 		r.OK("BisyncSlotTag/table-read-after-build", f.Pos(), "no lazily built table")
 	}
+}
+
+// ---------------------------------------------------------------- R18.10 the relaxed slot mode is for non-cluster targets only
+
+// ruleSlotModeByTargetKind: a replay unit is checked for "one slot" and tagged
+// with the slot of its keys unless bisyncSlotMode says otherwise; the relaxed
+// mode (a forced slot 0, cross-slot transactions accepted) exists for
+// stand-alone targets. It must be selected by the kind of the target and by
+// nothing else: on every path that returns the relaxed mode the target was
+// tested not to be a cluster. Tied to anything narrower (transaction capability,
+// a flag), a cluster target gets units whose slot is not HASH_SLOT of their keys.
+func ruleSlotModeByTargetKind(w *core.World, r *core.Report) {
+	f := fn(w, r, "(*syncer.RedisOutput).bisyncSlotMode")
+	if f == nil {
+		return
+	}
+	isCluster := func(v ssa.Value) bool {
+		c, ok := core.Unwrap(v).(*ssa.Call)
+		return ok && strings.HasSuffix(core.ResolveCall(c).Name, ").IsCluster")
+	}
+	bad := ""
+	var pos token.Pos = f.Pos()
+	relaxed, strict := 0, 0
+	okEnum := core.EnumPathsN(f.Blocks[0], 0, 100000, 1, func(p *core.Path) {
+		ret, isRet := p.End.(*ssa.Return)
+		if !isRet || ret.Parent() != f || bad != "" {
+			return
+		}
+		rel := false
+		for _, in := range p.Instrs {
+			st, ok := in.(*ssa.Store)
+			if !ok {
+				continue
+			}
+			fa, ok := st.Addr.(*ssa.FieldAddr)
+			if !ok || !strings.HasSuffix(core.TypeName(fa.X.Type()), "bisyncSlotMode") {
+				continue
+			}
+			switch core.FieldName(fa) {
+			case "allowCrossSlot":
+				if b, isB := core.ConstBool(p.Resolve(st.Val)); !isB || b {
+					rel = true
+				}
+			case "forceSlot":
+				if !core.IsNilConst(p.Resolve(st.Val)) {
+					rel = true
+				}
+			}
+		}
+		if !rel {
+			strict++
+			return
+		}
+		relaxed++
+		if !pathAssumed(p, isCluster, false) {
+			bad, pos = "the relaxed slot mode (forced slot, cross-slot accepted) is returned on a path that did not establish that the target is not a cluster", ret.Pos()
+		}
+	})
+	if !okEnum {
+		r.Undecided("bisyncSlotMode/by-target-kind", f.Pos(), "too many paths")
+		return
+	}
+	r.Check(bad == "" && relaxed > 0 && strict > 0, "bisyncSlotMode/by-target-kind", pos, "%s (relaxed paths=%d, strict paths=%d)", bad, relaxed, strict)
 }
